@@ -26,7 +26,8 @@ RULE = ("Fault points are enumerated from clean traced runs: for each of a seede
         "other entry point) and returns nothing; it returns within a watchdog of max(120 s, 200 x clean run); at the moment the "
         "exception reaches the caller multiprocessing.active_children() holds no process that was not there before; a "
         "following clean call returns bitwise the clean result. A shared counter proves the fault fired. Non-trivial = the "
-        "fault fired in a round >= 1 or under a multi-worker pool; distinct by SHA-1 of (configuration, fault point).")
+        "fault fired in a round >= 1 or under a multi-worker pool; distinct by SHA-1 of (configuration, fault point)."
+        ' Donor shortage also with a starved cluster of exactly one point.')
 ASSUMPTIONS = ["faults are injected by substituting module attributes the library looks up at call time; workers inherit the substitute by fork",
                "only standard picklable exception types are injected (an exception that cannot be unpickled hangs multiprocessing itself)",
                "the harness controls which task fails, not the OS schedule of the other tasks"]
@@ -222,6 +223,13 @@ def sampled_fault(draw):
         cfg["limit"] = 5
         cfg["biased"] = True          # a one-member cluster must not stop the run earlier for the other documented reason
         cfg["outliers"] = 0
+        if draw(st.integers(0, 2)) == 0:
+            # the starved cluster holds exactly ONE point (an outlier keeps a cluster to itself), not zero
+            cfg["outliers"] = 1
+            cfg["K"] = draw(st.sampled_from([2, 2, 3]))
+            cfg["beta"] = draw(st.sampled_from([0.0, 1.0]))
+            cfg["quantise"] = None
+            cfg["stray_pair"] = False
     cfg["fault"] = f
     return cfg
 
